@@ -69,11 +69,15 @@ def lake(target):
 
 def theorems_of(pid):
     """(names, source text) of the property theorems in Props/<pid>.lean"""
-    path = os.path.join(LEAN, "IppModel", "Props", pid + ".lean")
-    try:
-        src = open(path, encoding="utf-8").read()
-    except OSError:
-        return [], ""
+    import glob
+    paths = [os.path.join(LEAN, "IppModel", "Props", pid + ".lean")] + sorted(glob.glob(os.path.join(LEAN, "IppModel", "Props", pid + "?.lean")))
+    src = ""
+    for path in paths:
+        try:
+            src += open(path, encoding="utf-8").read() + "\n"
+        except OSError:
+            if path == paths[0]:
+                return [], ""
     names = re.findall(r"^theorem\s+([\w.]+)", src, re.M)
     return names, src
 
